@@ -89,7 +89,13 @@ class Circuit:
                     last_resent=dt.datetime.now(),
                     message=message,
                 )
-            return self._send_prepared_message(message, transport)
+            try:
+                return self._send_prepared_message(message, transport)
+            except:
+                # Never made it onto the wire, so there's nothing to resend. Retrying would
+                # only fail the same way inside the resend loop.
+                self.unacked_reliable.pop((message.direction, message.packet_id), None)
+                raise
 
     def send_reliable(self, message: Message, transport=None) -> asyncio.Future:
         """send() wrapper that always sends reliably and allows `await`ing ACK receipt"""
